@@ -1,14 +1,14 @@
 """Images.add histories, loaded documents and identify_image vs Model/Images.v"""
 import copy
 import json
-from suites.common import exc_result, reflect, rstr, DIGITS
+from suites.common import api_consistency, exc_result, reflect, rstr, DIGITS
 
 EXC = (ValueError, TypeError, AttributeError, KeyError, IndexError)
 FIELDS = ["path", "mtime", "size", "volume_id", "type", "format", "arch", "disc_number", "disc_count", "checksums",
           "implant_md5", "bootable", "subvariant", "unified", "additional_variants"]
 DOC7 = ["subvariant", "type", "format", "arch", "disc_number", "unified", "additional_variants"]   # the documented identity
 VARIANTS = ["Server", "Client", "Workstation", "Server-optional"]
-ARCHES = ["x86_64", "ppc64le", "aarch64", "i386"]
+ARCHES = ["x86_64", "ppc64le", "aarch64", "i386", "armhfp", "amd64", "noarch"]      # the last three: rarely used table entries
 BAD_ARCHES = ["src", "nosrc", "bogus", ""]
 
 
@@ -36,7 +36,7 @@ def gen_image(rng, R, small=True, idx=0):
         "volume_id": rng.choice([None, "Fedora-S-dvd-x86_64-22", "vol"]),
         "type": rng.choice(["dvd", "boot"] if small else types), "format": rng.choice(["iso"] if small else formats),
         "arch": rng.choice(["x86_64", "src"] if small else ARCHES + ["src"]),
-        "disc_number": rng.choice([1, 2]), "disc_count": rng.choice([1, 2]),
+        "disc_number": rng.choice([1, 2, 1, 2, 0]), "disc_count": rng.choice([1, 2, 1, 2, 0]),
         "checksums": rng.choice([{"sha256": "a" * 64}, {"sha256": "b" * 64}, {"md5": "c" * 32, "sha256": "a" * 64}]),
         "implant_md5": rng.choice([None, "0123456789abcdef" * 2]), "bootable": rng.random() < 0.5,
         "subvariant": rng.choice(["Server", "", "KDE"] if small else ["Server", "KDE", "", "Workstation"]),
@@ -174,6 +174,9 @@ def impl_roundtrip(case):
         text = im.dumps()
     except EXC as e:
         return exc_result(e)
+    api = api_consistency(im, IM.Images, text)
+    if api:
+        return ["api-inconsistent", api]
     im2 = IM.Images()
     try:
         im2.loads(text)
